@@ -20,6 +20,8 @@ type vchan struct {
 	taken    int64 // number of items ever received (for unbuffered rendezvous)
 	sent     int64
 	epoch    int
+	vcs      []vclock
+	closeVC  vclock
 }
 
 // touchChan saves the state of a channel created before the current path
@@ -50,6 +52,7 @@ func (i *interpreter) chanSend(c *vchan, v value) {
 		}
 		c.buf = append(c.buf, v)
 		c.sent++
+		i.chanPublish(c)
 		return
 	}
 	// unbuffered: wait for a receiver, deposit, wait until taken
@@ -59,6 +62,7 @@ func (i *interpreter) chanSend(c *vchan, v value) {
 	}
 	c.buf = append(c.buf, v)
 	c.sent++
+	i.chanPublish(c)
 	my := c.sent
 	i.block(func() bool { return c.taken >= my }, "chan send (handoff)")
 }
@@ -76,7 +80,11 @@ func (i *interpreter) chanRecv(c *vchan) (value, bool) {
 		v := c.buf[0]
 		c.buf = c.buf[1:]
 		c.taken++
+		i.chanConsume(c)
 		return v, true
+	}
+	if i.race != nil && i.race.on && i.sch.cur != nil {
+		i.sch.cur.vc.join(c.closeVC)
 	}
 	return nil, false
 }
@@ -91,6 +99,10 @@ func (i *interpreter) chanClose(c *vchan) {
 		panic(targetPanic{v: iface{i.runtimeErrorString, "close of closed channel"}})
 	}
 	c.closed = true
+	if i.race != nil && i.race.on && i.sch.cur != nil {
+		c.closeVC = i.sch.cur.vc.copy()
+		i.tick(i.sch.cur)
+	}
 	i.event("close-chan")
 }
 
@@ -162,11 +174,15 @@ func (i *interpreter) selectStmt(fr *frame, instr *ssa.Select) value {
 			}
 			sc.c.buf = append(sc.c.buf, sc.v)
 			sc.c.sent++
+			i.chanPublish(sc.c)
 		} else if len(sc.c.buf) > 0 {
 			recvV = sc.c.buf[0]
 			sc.c.buf = sc.c.buf[1:]
 			sc.c.taken++
+			i.chanConsume(sc.c)
 			recvOk = true
+		} else if i.race != nil && i.race.on && i.sch.cur != nil {
+			i.sch.cur.vc.join(sc.c.closeVC)
 		}
 	}
 	r[1] = recvOk
@@ -196,5 +212,19 @@ func (i *interpreter) goStmt(fr *frame, pos token.Pos, fn value, args []value) {
 func (i *interpreter) event(s string) {
 	if len(i.path.events) < 4096 {
 		i.path.events = append(i.path.events, fmt.Sprintf("%s:%s", i.sch.cur.name, s))
+	}
+}
+
+func (i *interpreter) chanPublish(c *vchan) {
+	if i.race != nil && i.race.on && i.sch.cur != nil {
+		c.vcs = append(c.vcs, i.sch.cur.vc.copy())
+		i.tick(i.sch.cur)
+	}
+}
+
+func (i *interpreter) chanConsume(c *vchan) {
+	if i.race != nil && i.race.on && i.sch.cur != nil && len(c.vcs) > 0 {
+		i.sch.cur.vc.join(c.vcs[0])
+		c.vcs = c.vcs[1:]
 	}
 }
